@@ -6139,6 +6139,9 @@ class CodegenCtx:
 
         # Find all transitions that operate on End
         unconditional_end_transition = state[DFTransition.End]
+        if state in self.dfa.accepting_states and unconditional_end_transition is not None and unconditional_end_transition.error_handling:
+            # the input may stop in an accepting state: running out of input there is not an error
+            unconditional_end_transition = None
 
         result.add("// possible end transitions")
         
